@@ -44,15 +44,22 @@ def _redshift_histogram(patch: Patch, binning: Binning) -> NDArray:
     """Worker function that computes a redshift histgram from a given patch and
     binning."""
     redshifts = patch.redshifts
-    # numpy histogram uses the bin edges as closed intervals on both sides
+    edges = binning.edges
+    # numpy histogram bins are closed on the left, except for the last bin which
+    # is closed on both sides
     if binning.closed == "right":
-        mask = redshifts > binning.edges[0]
+        mask = redshifts > edges[0]
+        # mirror data and bins to obtain intervals that are closed on the right
+        redshifts = -redshifts
+        edges = -edges[::-1]
     else:
-        mask = redshifts < binning.edges[-1]
+        mask = redshifts < edges[-1]
 
     weights = patch.weights[mask] if patch.has_weights else None
 
-    counts, _ = np.histogram(redshifts[mask], binning.edges, weights=weights)
+    counts, _ = np.histogram(redshifts[mask], edges, weights=weights)
+    if binning.closed == "right":
+        counts = counts[::-1]
     return counts.astype(np.float64)
 
 
